@@ -2,6 +2,7 @@ package c01
 
 import (
 	"fmt"
+	"os"
 	"sort"
 	"strings"
 
@@ -16,11 +17,12 @@ const marker = "zqZq7"
 const anyValue = "\x00<any value>\x00"
 
 // probeSpec describes one probe template: which dynamic sink it exercises and under which parent.
-//   holes  number of places the benign marker must be found in the tokens of the benign rendering
-//          (text-run occurrences + attribute values) - a sanity check of the probe itself
-//   val    for attribute sinks whose value is a function of the string (URL typing, class lists, style): the
-//          expected attribute value; raw=true compares the raw (undecoded) value (style: written as returned)
-//   tree   optional: the model tree (model/DocFrag.v) of the probe, tying [render]/[expected] to generated code
+//
+//	holes  number of places the benign marker must be found in the tokens of the benign rendering
+//	       (text-run occurrences + attribute values) - a sanity check of the probe itself
+//	val    for attribute sinks whose value is a function of the string (URL typing, class lists, style): the
+//	       expected attribute value; raw=true compares the raw (undecoded) value (style: written as returned)
+//	tree   optional: the model tree (model/DocFrag.v) of the probe, tying [render]/[expected] to generated code
 type probeSpec struct {
 	name   string
 	sink   string
@@ -33,7 +35,10 @@ type probeSpec struct {
 	omitEmpty bool
 	// anyVal: an attribute value that merely CONTAINS the marker is expected to be one value, whatever it holds
 	anyVal bool
-	tree      func(s string) *node
+	// treeOnly: the structure depends on the string (a condition on it), so the benign-substitution expectation does not
+	// apply; the probe is checked through its model tree only
+	treeOnly bool
+	tree     func(s string) *node
 }
 
 func cssJoin(kvs ...any) string { // (name, enabled) pairs in order: last enable wins, first position kept, deduplicated
@@ -62,6 +67,20 @@ func style(vals ...any) string {
 	return s
 }
 func urlv(s string) string { return string(templ.URL(s)) }
+func scriptOut(s string) string {
+	v, err := templruntime.ScriptContentOutsideStringLiteral(s)
+	if err != nil {
+		return "!error"
+	}
+	return v
+}
+func scriptIn(s string) string {
+	v, err := templruntime.ScriptContentInsideStringLiteral(s)
+	if err != nil {
+		return "!error"
+	}
+	return v
+}
 
 var probeTable = []probeSpec{
 	{name: "TextNormal", sink: "text", parent: "normal", holes: 1, tree: func(s string) *node {
@@ -171,6 +190,62 @@ var probeTable = []probeSpec{
 		return frag(E("div", A{C("id", "i"), M("data-k", "k1"+s, "data-off", "k0"+s), D("title", s)}, S(s)), E("p", nil, T("after")))
 	}},
 
+	{name: "FlowIf", sink: "text+attr in if/else-if/else", parent: "normal", treeOnly: true, tree: func(s string) *node {
+		n := len(s)
+		_ = n
+		return frag(E("div", nil, If(n%2 == 0, L(E("b", nil, S(s))), L(If(n%3 == 0, L(E("i", nil, S(s))), L(E("u", A{D("title", s)}, S(s))))))))
+	}},
+	{name: "FlowFor", sink: "text in for", parent: "normal", holes: 2, tree: func(s string) *node {
+		n := len(s)
+		_ = n
+		return frag(E("ul", nil, For(L(E("li", nil, S(s))), L(E("li", nil, S("b"))), L(E("li", nil, S(s))))))
+	}},
+	{name: "FlowSwitch", sink: "text+attr in switch", parent: "normal", treeOnly: true, tree: func(s string) *node {
+		n := len(s)
+		_ = n
+		return frag(E("div", nil, Sw(n%3, L(E("b", nil, S(s))), L(E("i", A{D("data-v", s)})), L(S(s)))))
+	}},
+	{name: "FlowComment", sink: "text+attr after comments", parent: "normal", holes: 3, tree: func(s string) *node {
+		n := len(s)
+		_ = n
+		return frag(Cm(" a <b> - ! \"' comment "), E("p", A{D("title", s)}, S(s)), Cm(""), S(s), Cm(" z "))
+	}},
+	{name: "FlowDoctype", sink: "text+attr after doctype", parent: "normal+rcdata", holes: 3, tree: func(s string) *node {
+		n := len(s)
+		_ = n
+		return frag(Dt("html"), E("html", A{D("lang", s)}, E("head", nil, E("title", nil, S(s))), E("body", nil, S(s))))
+	}},
+	{name: "FlowChild", sink: "text+attr in child component / children block", parent: "normal", holes: 5, tree: func(s string) *node {
+		n := len(s)
+		_ = n
+		return frag(Call(E("section", A{D("title", s)}, E("h1", nil, S(s)), Kids(E("p", nil, S(s)), For(L(Call(E("em", nil, S(s)))), L(Call(E("em", nil, S(s)))))))), E("p", nil, T("after")))
+	}},
+	{name: "FlowCondAttrNested", sink: "nested conditional attributes", parent: "normal", treeOnly: true, tree: func(s string) *node {
+		n := len(s)
+		_ = n
+		return frag(E("div", A{C("id", "i"), AI(true, A{AI(n%2 == 0, A{D("data-a", s)}, A{D("data-b", s), B("hidden")}), C("class", "k")}, nil)}, S(s)))
+	}},
+	{name: "FlowRawStyle", sink: "text after raw style", parent: "rawtext-static", holes: 1, tree: func(s string) *node {
+		n := len(s)
+		_ = n
+		return frag(R("style", nil, "p > a { content: \"</p>\" } </sty"), E("p", nil, S(s)))
+	}},
+	{name: "FlowScriptDyn", sink: "script {{ }} parts", parent: "script", holes: 1, tree: func(s string) *node {
+		n := len(s)
+		_ = n
+		return frag(J(nil, Ps("var a = "), Pd(scriptOut(s)), Ps("; var b = \""), Pd(scriptIn(s)), Ps("\"; if (a<b) { a = \"</div>\" }")), E("p", nil, S(s)))
+	}},
+	{name: "FlowTitleFor", sink: "text in for", parent: "rcdata", holes: 3, tree: func(s string) *node {
+		n := len(s)
+		_ = n
+		return frag(E("title", nil, For(L(S(s)), L(S(s)))), E("p", nil, S(s)))
+	}},
+	{name: "FlowTextareaIf", sink: "text in if", parent: "rcdata", treeOnly: true, tree: func(s string) *node {
+		n := len(s)
+		_ = n
+		return frag(E("textarea", nil, If(n%2 == 1, L(S(s)), nil)), E("p", nil, T("after")))
+	}},
+
 	{name: "JSONID", omitEmpty: true, sink: "json-script-id", parent: "script", holes: 1},
 	{name: "JSONType", omitEmpty: true, sink: "json-script-type", parent: "script", holes: 1},
 	{name: "JSONNonce", omitEmpty: true, sink: "json-script-nonce", parent: "script", holes: 1},
@@ -185,48 +260,124 @@ var probeTable = []probeSpec{
 
 // ---- model trees (prefix encoding understood by extract/X01.v dec_tree) ----
 type attrN struct {
-	tag  string
-	args []string
+	tag    string
+	args   []string
+	th, el A // tag "i": the two attribute lists of an if/else inside a start tag
 }
 type A []attrN
 type node struct {
-	kind  byte // T S E V F(ragment)
+	kind  byte // T S E V C D R J I F W K H, and 'G' for a top-level fragment (not encoded itself)
 	s     string
 	attrs A
 	ch    []*node
+	el    []*node   // I: the else list
+	lists [][]*node // F: iterations, W: cases
+	idx   int       // W: the case taken
+	cond  bool      // I
+	parts []partN   // J
+}
+type partN struct {
+	dyn bool
+	v   string
 }
 
-func T(s string) *node                    { return &node{kind: 'T', s: s} }
-func S(s string) *node                    { return &node{kind: 'S', s: s} }
-func E(n string, a A, ch ...*node) *node  { return &node{kind: 'E', s: n, attrs: a, ch: ch} }
-func V(n string, a A) *node               { return &node{kind: 'V', s: n, attrs: a} }
-func frag(ch ...*node) *node              { return &node{kind: 'F', ch: ch} }
-func C(k, v string) attrN                 { return attrN{"c", []string{k, v}} }
-func B(k string) attrN                    { return attrN{"b", []string{k}} }
-func D(k, s string) attrN                 { return attrN{"d", []string{k, s}} }
-func M(kv ...string) attrN                { return attrN{"m", append([]string{fmt.Sprint(len(kv) / 2)}, kv...)} }
+func T(s string) *node                   { return &node{kind: 'T', s: s} }
+func S(s string) *node                   { return &node{kind: 'S', s: s} }
+func E(n string, a A, ch ...*node) *node { return &node{kind: 'E', s: n, attrs: a, ch: ch} }
+func V(n string, a A) *node              { return &node{kind: 'V', s: n, attrs: a} }
+func frag(ch ...*node) *node             { return &node{kind: 'G', ch: ch} }
+func Cm(d string) *node                  { return &node{kind: 'C', s: d} }
+func Dt(d string) *node                  { return &node{kind: 'D', s: d} }
+func R(n string, a A, v string) *node    { return &node{kind: 'R', s: n, attrs: a, ch: []*node{T(v)}} }
+func J(a A, ps ...partN) *node           { return &node{kind: 'J', attrs: a, parts: ps} }
+func Ps(v string) partN                  { return partN{false, v} }
+func Pd(v string) partN                  { return partN{true, v} }
+func L(ch ...*node) []*node              { return ch }
+func If(c bool, th, el []*node) *node    { return &node{kind: 'I', cond: c, ch: th, el: el} }
+func For(its ...[]*node) *node           { return &node{kind: 'F', lists: its} }
+func Sw(i int, cs ...[]*node) *node      { return &node{kind: 'W', idx: i, lists: cs} }
+func Call(ch ...*node) *node             { return &node{kind: 'K', ch: ch} }
+func Kids(ch ...*node) *node             { return &node{kind: 'H', ch: ch} }
+func AI(c bool, th, el A) attrN          { return attrN{tag: "i", args: []string{b01s(c)}, th: th, el: el} }
+func b01s(b bool) string {
+	if b {
+		return "1"
+	}
+	return "0"
+}
+func C(k, v string) attrN { return attrN{tag: "c", args: []string{k, v}} }
+func B(k string) attrN    { return attrN{tag: "b", args: []string{k}} }
+func D(k, s string) attrN { return attrN{tag: "d", args: []string{k, s}} }
+func M(kv ...string) attrN {
+	return attrN{tag: "m", args: append([]string{fmt.Sprint(len(kv) / 2)}, kv...)}
+}
+func encAttrs(a A, out *[][]byte) {
+	put := func(s string) { *out = append(*out, []byte(s)) }
+	put(fmt.Sprint(len(a)))
+	for _, x := range a {
+		put(x.tag)
+		for _, v := range x.args {
+			put(v)
+		}
+		if x.tag == "i" {
+			encAttrs(x.th, out)
+			encAttrs(x.el, out)
+		}
+	}
+}
+func encList(l []*node, out *[][]byte) {
+	*out = append(*out, []byte(fmt.Sprint(len(l))))
+	for _, c := range l {
+		c.enc(out)
+	}
+}
 func (n *node) enc(out *[][]byte) {
 	put := func(s string) { *out = append(*out, []byte(s)) }
 	switch n.kind {
-	case 'T', 'S':
+	case 'T', 'S', 'C', 'D':
 		put(string(n.kind))
 		put(n.s)
 	case 'E', 'V':
 		put(string(n.kind))
 		put(n.s)
-		put(fmt.Sprint(len(n.attrs)))
-		for _, a := range n.attrs {
-			put(a.tag)
-			for _, x := range a.args {
-				put(x)
-			}
-		}
+		encAttrs(n.attrs, out)
 		if n.kind == 'E' {
-			put(fmt.Sprint(len(n.ch)))
-			for _, c := range n.ch {
-				c.enc(out)
-			}
+			encList(n.ch, out)
 		}
+	case 'R':
+		put("R")
+		put(n.s)
+		encAttrs(n.attrs, out)
+		put(n.ch[0].s)
+	case 'J':
+		put("J")
+		encAttrs(n.attrs, out)
+		put(fmt.Sprint(len(n.parts)))
+		for _, p := range n.parts {
+			if p.dyn {
+				put("d")
+			} else {
+				put("s")
+			}
+			put(p.v)
+		}
+	case 'I':
+		put("I")
+		put(b01s(n.cond))
+		encList(n.ch, out)
+		encList(n.el, out)
+	case 'F', 'W':
+		put(string(n.kind))
+		if n.kind == 'W' {
+			put(fmt.Sprint(n.idx))
+		}
+		put(fmt.Sprint(len(n.lists)))
+		for _, l := range n.lists {
+			encList(l, out)
+		}
+	case 'K', 'H':
+		put(string(n.kind))
+		encList(n.ch, out)
 	}
 }
 
@@ -458,7 +609,10 @@ func famProbes(c *core.Ctx) {
 			continue
 		}
 		benign[r.p.name] = ts
-		if _, h := substitute(r.p, ts, marker); h != r.p.holes {
+		if os.Getenv("C01_DUMP") != "" {
+			fmt.Printf("DUMP %s: %s\n", r.p.name, r.out)
+		}
+		if _, h := substitute(r.p, ts, marker); h != r.p.holes && !r.p.treeOnly {
 			probeOK = false
 			c.Fail("tie", "probes: benign rendering", "", map[string]string{"probe": r.p.name, "rendered": string(r.out), "tokens": showToks(ts)},
 				fmt.Sprintf("the marker is found in %d places of the benign rendering, the probe table says %d: the sink is not where the probe table expects it", h, r.p.holes))
@@ -487,7 +641,7 @@ func famProbes(c *core.Ctx) {
 		bad := ""
 		if err != nil {
 			bad = err.Error()
-		} else {
+		} else if !r.p.treeOnly {
 			bad = diffProbe(r.p, got, want)
 		}
 		if bad != "" {
@@ -521,6 +675,7 @@ func famProbes(c *core.Ctx) {
 	// model trees: DocFrag.render = generated code's bytes; tokens = spec expected
 	docs := c.Model(docReqs)
 	treeOK, treeProp := true, true
+	notWf := 0
 	for k, r := range docs {
 		cs := cases[docIdx[k]]
 		if len(r) < 3 || string(r[0]) != "1" {
@@ -529,7 +684,11 @@ func famProbes(c *core.Ctx) {
 			continue
 		}
 		if string(r[1]) != "1" {
-			c.Hist("probe tree: not wf (outside the theorem's hypothesis)")
+			notWf++
+			if notWf <= 3 {
+				c.Fail("tie", "probes: model trees are well-formed", "", map[string]string{"probe": cs.p.name, "string": core.Q(cs.s), "rendered": core.Q(cs.out)},
+					"the model tree of this probe is outside the document theorem's hypothesis wf (static side condition of the probe, or a dynamic script part that is neither clean nor cool)")
+			}
 		}
 		if string(r[2]) != string(cs.out) {
 			treeOK = false
@@ -547,6 +706,7 @@ func famProbes(c *core.Ctx) {
 			}
 		}
 	}
+	c.Oblige("side-condition", "probes: every model tree satisfies the document theorem's hypothesis wf (evaluated by the extracted wf for every string)", notWf == 0, fmt.Sprint(notWf, " trees not wf"))
 	c.Oblige("correspondence", "probes: model/DocFrag.v render(tree) = bytes written by the generated code, for the probes with a model tree", treeOK, "")
 	c.Oblige("correspondence", "probes: tokens of the generated code's bytes = spec/DocExpect.v expected(tree), text and values compared decoded", treeProp, "")
 	c.Extra["probe_tree_cases"] = len(docs)
